@@ -10,7 +10,7 @@ class C17(pure.Spec):
     module = "Properties.C17"
     theorems = ["C17_reaches_iff", "C17_skip_accepts_any_certificate", "C17_verify_needs_chain_and_name",
                 "C17_client_ca_requires_issued_cert", "C17_no_client_ca_never_asks", "C17_established_undisturbed",
-                "C17_handshake_sees_latest", "C17_returning_sees_latest", "C17_sni_overrides", "C17_hostname_overrides_url",
+                "C17_handshake_sees_latest", "C17_returning_sees_latest", "C17_fresh_sees_latest", "C17_admitted_iff", "C17_sni_overrides", "C17_hostname_overrides_url",
                 "C17_url_host_by_default", "C17_name_case_iff"]
     crate = "app"
     binary = "vh-app"
@@ -20,7 +20,7 @@ class C17(pure.Spec):
             "the real tls_connect (make_client_config) connects over loopback to the real run_listener serving an identity "
             "built by make_tls_identity; observed: TLS up and an HTTP response received, and whether the server sent a "
             "CertificateRequest (probe client with a recording certificate resolver). Plus random identity-swap scripts "
-            "(handshake / reload_tls_identity with good or unreadable files / reuse of an established connection / a returning client, i.e. one persistent make_client_config configuration whose session cache survives its earlier connections, with or without the client certificate): "
+            "(handshake / reload_tls_identity with good or unreadable files, with the client CA switched on or off or its file rewritten in place to hold another CA / new clients presenting no certificate, one under the first or one under the second CA / reuse of an established connection / a returning client, i.e. one persistent make_client_config configuration whose session cache survives its earlier connections, with or without the client certificate): "
             "certificate seen by each new handshake, result of each reload, established connections still answering. "
             "Name selection: the real client (client_main_inner -> ws_connect::handshake) for URL host {IP, name} x "
             "--hostname {none, the certificate's name, another} x --tls-server-name {same three} x skip-verify (36 "
